@@ -671,7 +671,7 @@ func (st *e3State) step(op e3Op, rng *rand.Rand, part *h.Partial) []e3Verdict {
 		}
 
 	// ---- plain invocations of the task under test ------------------------------
-	case "run", "run-fail", "run-force", "run-force-fail", "run-yes", "kill", "run-cancel", "run-cancel-force", "run-edit":
+	case "run", "run-fail", "run-force", "run-force-decline", "run-force-fail", "run-yes", "kill", "run-cancel", "run-cancel-force", "run-edit":
 		inv := e3Inv{args: sh.withVar(sh.TaskName), plain: true}
 		failFlag := ""
 		switch op.Kind {
@@ -691,6 +691,11 @@ func (st *e3State) step(op e3Op, rng *rand.Rand, part *h.Partial) []e3Verdict {
 				inv.args = append(inv.args, "--yes")
 				inv.yes = true
 			}
+		case "run-force-decline":
+			// --force without --yes on a task with a prompt: the prompt comes (the up-to-date check is skipped),
+			// nobody answers, nothing may run, and the declined attempt is the last one for this fingerprint
+			inv.args = append(inv.args, "--force")
+			inv.force = true
 		case "run-force":
 			inv.args = append(inv.args, "--force")
 			inv.force = true
@@ -1285,6 +1290,20 @@ func runE3(id string, start time.Time) int {
 							i++
 						}
 					}
+				}
+			}
+		}
+		// a forced attempt that is declined at the prompt (only --force brings the prompt on an up-to-date task) is the
+		// last attempt for its fingerprint: the next plain run must execute (seeded change C04-r5-1)
+		for _, method := range []string{"checksum", "timestamp"} {
+			for _, shape := range []string{"plain", "deps", "label", "ns"} {
+				for _, gen := range []bool{false, true} {
+					s := e3Shape{Method: method, Glob: 0, Shape: shape, NCmds: 2, Gen: gen, Prompt: true}
+					s.fixNames()
+					jobs = append(jobs, job{s, []e3Op{{Kind: "run-yes"}, {Kind: "run-force-decline"}, {Kind: "run-yes"}, {Kind: "run-yes"}}, "decline-enum", i})
+					i++
+					jobs = append(jobs, job{s, []e3Op{{Kind: "run-yes"}, {Kind: "edit"}, {Kind: "run-yes"}, {Kind: "run-force-decline"}, {Kind: "run-yes"}, {Kind: "run-yes"}}, "decline-enum", i})
+					i++
 				}
 			}
 		}
